@@ -1,2 +1,258 @@
+(* C01 — Universe output is the priority-filtered HTP/LTP merge of its live sources.
+   Only theorem statements here (proofs: Proofs.v, Reach.v).
+
+   Reading guide.  [w] is a world: the universe (mode, frame held, port/client containers) and the
+   objects it points to (each input port's and each client's last DmxSource).  [step w o] performs one
+   call [o] and returns the new world and the WriteDMX/SendDMX calls made.  For the four update calls
+   (BasicInputPort::DmxChanged, Universe::PortDataChanged, Client::DMXReceived +
+   Universe::SourceClientDataChanged, SourceClientDataChanged alone) [apply_update w o =
+   Some (chg, now, w1)] gives the updating source [chg], the clock reading [now] and the world [w1] in
+   which the new frame has been stored but no merge has happened yet; [sources w1] are the universe's
+   candidate sources at that moment and [group now (sources w1)] its live highest-priority group.
+   All theorems hold for EVERY world [w] (reachable or not), every call, every merge mode. *)
 From OlaBase Require Import Bytes.
-From C01 Require Import Gen Model Spec Proofs.
+From Coq Require Import Sorting.Sorted.
+From C01 Require Import Gen Model Spec Proofs Reach.
+Local Open Scope N_scope.
+
+(* Constants of the property (2.5 s, priorities 0/100/200, 512 slots) are the repository's, and the
+   model's liveness test is the specification's with the literal 2.5 s. *)
+Theorem c01_consts :
+  (TIMEOUT_US, SOURCE_PRIORITY_MIN, SOURCE_PRIORITY_DEFAULT, SOURCE_PRIORITY_MAX, DMX_UNIVERSE_SIZE)
+  = (2500000, 0, 100, 200, 512) /\
+  (forall now s, live now s = liveb now s) /\
+  (forall now s, liveb now s = true <-> s_ts s <> 0 /\ now < s_ts s + 2500000 /\ s_data s <> []).
+Proof. split; [reflexivity|]. split; [exact live_liveb|exact liveb_is_live]. Qed.
+Print Assumptions c01_consts.
+
+(* What [group] is: the sources that are live and whose priority no live source exceeds. *)
+Theorem c01_group_spec : forall now (l : srcs) e,
+  In e (group now l) <->
+  In e l /\ is_live now (snd e) /\
+  forall e', In e' l -> is_live now (snd e') -> s_prio (snd e') <= s_prio (snd e).
+Proof. exact group_spec. Qed.
+Print Assumptions c01_group_spec.
+
+(* What [slotwise_max] is: as long as the longest frame; every slot is an upper bound of that slot
+   over the frames (absent slots count 0) and is attained by one of them. *)
+Theorem c01_slotwise_max_spec : forall fs : list (list N),
+  (forall f, In f fs -> (length f <= length (slotwise_max fs))%nat) /\
+  (fs <> [] -> exists f, In f fs /\ length f = length (slotwise_max fs)) /\
+  (fs = [] -> slotwise_max fs = []) /\
+  forall i,
+    (forall f, In f fs -> nth i f 0 <= nth i (slotwise_max fs) 0) /\
+    (fs <> [] -> exists f, In f fs /\ nth i f 0 = nth i (slotwise_max fs) 0).
+Proof. exact slotwise_spec. Qed.
+Print Assumptions c01_slotwise_max_spec.
+
+(* Master statement: after any update call the frame held and the calls made are exactly what
+   [Spec.expected] (the property text as a function of mode, updating source and group) prescribes;
+   the merge touches nothing but the frame and the active priority, which becomes the group's. *)
+Theorem c01_merge : forall w o chg now w1,
+  apply_update w o = Some (chg, now, w1) ->
+  let g := group now (sources w1) in
+  let ex := expected (u_ltp (w_u w)) chg g in
+  let w2 := fst (step w o) in
+  u_buf (w_u w2) = match ex with Some f => f | None => u_buf (w_u w) end /\
+  snd (step w o) = match ex with
+                   | Some f => hand_out (u_outs (w_u w)) (u_sinks (w_u w)) f (gprio g)
+                   | None => []
+                   end /\
+  u_prio (w_u w2) = gprio g /\
+  u_ltp (w_u w2) = u_ltp (w_u w1) /\ u_inputs (w_u w2) = u_inputs (w_u w1) /\
+  u_clients (w_u w2) = u_clients (w_u w1) /\ u_outs (w_u w2) = u_outs (w_u w1) /\
+  u_sinks (w_u w2) = u_sinks (w_u w1) /\ w_ports w2 = w_ports w1 /\ w_csrc w2 = w_csrc w1.
+Proof. exact step_spec. Qed.
+Print Assumptions c01_merge.
+
+(* HTP: a member of a group of two or more updates => the frame is the slot-wise maximum of the
+   group's frames, handed out with the group's priority. *)
+Theorem c01_htp : forall w o chg now w1,
+  apply_update w o = Some (chg, now, w1) ->
+  u_ltp (w_u w) = false ->
+  (2 <= length (group now (sources w1)))%nat ->
+  member chg (group now (sources w1)) = true ->
+  let frame := slotwise_max (map (fun e => s_data (snd e)) (group now (sources w1))) in
+  u_buf (w_u (fst (step w o))) = frame /\
+  snd (step w o) = hand_out (u_outs (w_u w)) (u_sinks (w_u w)) frame (gprio (group now (sources w1))).
+Proof. exact htp_lemma. Qed.
+Print Assumptions c01_htp.
+
+(* LTP: a member [s] of a group of two or more updates => if another member is strictly newer nothing
+   changes and nothing is sent, otherwise the frame is the updating source's, handed out with its
+   (= the group's) priority.  Equal time stamps count as "not newer". *)
+Theorem c01_ltp : forall w o chg now w1 s,
+  apply_update w o = Some (chg, now, w1) ->
+  u_ltp (w_u w) = true ->
+  (2 <= length (group now (sources w1)))%nat ->
+  In (chg, s) (group now (sources w1)) ->
+  (newer_exists (s_ts s) (group now (sources w1)) = true ->
+   u_buf (w_u (fst (step w o))) = u_buf (w_u w) /\ snd (step w o) = []) /\
+  (newer_exists (s_ts s) (group now (sources w1)) = false ->
+   u_buf (w_u (fst (step w o))) = s_data s /\
+   snd (step w o) = hand_out (u_outs (w_u w)) (u_sinks (w_u w)) (s_data s) (s_prio s)).
+Proof. exact ltp_lemma. Qed.
+Print Assumptions c01_ltp.
+
+(* Sole member: its frame verbatim, in either mode. *)
+Theorem c01_single : forall w o chg now w1 s,
+  apply_update w o = Some (chg, now, w1) ->
+  group now (sources w1) = [(chg, s)] ->
+  u_buf (w_u (fst (step w o))) = s_data s /\
+  snd (step w o) = hand_out (u_outs (w_u w)) (u_sinks (w_u w)) (s_data s) (s_prio s).
+Proof. exact single_lemma. Qed.
+Print Assumptions c01_single.
+
+(* Fan-out: when (and only when) the update changes the frame per the specification, the calls are
+   exactly one WriteDMX per patched output port (vector order) followed by one SendDMX per sink
+   client, each with the frame now held and the group's priority; otherwise no call is made and the
+   frame is the old one. *)
+Theorem c01_fanout : forall w o chg now w1,
+  apply_update w o = Some (chg, now, w1) ->
+  let g := group now (sources w1) in
+  let changed := is_some (expected (u_ltp (w_u w)) chg g) in
+  snd (step w o) =
+    (if changed
+     then map (fun p => WriteDMX p (u_buf (w_u (fst (step w o)))) (gprio g)) (u_outs (w_u w)) ++
+          map (fun c => SendDMX c (u_buf (w_u (fst (step w o)))) (gprio g)) (u_sinks (w_u w))
+     else []) /\
+  (changed = false -> u_buf (w_u (fst (step w o))) = u_buf (w_u w)).
+Proof. exact fanout_lemma. Qed.
+Print Assumptions c01_fanout.
+
+(* An update from a source outside the live highest-priority group (lower priority, timed out, empty
+   or never set; also when there is no live source at all) changes nothing and sends nothing. *)
+Theorem c01_outside : forall w o chg now w1,
+  apply_update w o = Some (chg, now, w1) ->
+  member chg (group now (sources w1)) = false ->
+  u_buf (w_u (fst (step w o))) = u_buf (w_u w) /\ snd (step w o) = [].
+Proof. exact outside_lemma. Qed.
+Print Assumptions c01_outside.
+
+(* Every call that is not an update of a patched source (patching, mode, priorities, data arriving on
+   an unpatched port) leaves the frame alone and sends nothing. *)
+Theorem c01_admin : forall w o,
+  apply_update w o = None ->
+  snd (step w o) = [] /\ u_buf (w_u (fst (step w o))) = u_buf (w_u w).
+Proof. exact admin_lemma. Qed.
+Print Assumptions c01_admin.
+
+(* "Never merged in": two worlds that agree on mode, frame held, output ports and sinks and whose
+   live highest-priority groups coincide produce the same frame and the same calls, whatever their
+   lower-priority, timed-out, empty or never-set sources contain. *)
+Theorem c01_noninterference : forall wa oa wa1 wb ob wb1 chg now,
+  apply_update wa oa = Some (chg, now, wa1) ->
+  apply_update wb ob = Some (chg, now, wb1) ->
+  u_ltp (w_u wa) = u_ltp (w_u wb) -> u_buf (w_u wa) = u_buf (w_u wb) ->
+  u_outs (w_u wa) = u_outs (w_u wb) -> u_sinks (w_u wa) = u_sinks (w_u wb) ->
+  group now (sources wa1) = group now (sources wb1) ->
+  u_buf (w_u (fst (step wa oa))) = u_buf (w_u (fst (step wb ob))) /\
+  snd (step wa oa) = snd (step wb ob).
+Proof. exact noninterference_lemma. Qed.
+Print Assumptions c01_noninterference.
+
+(* Every world reachable from the initial one by any sequence of calls: no port is listed twice, the
+   client containers are strictly ascending (so a group never counts a source twice), and every
+   frame held by a port, a client or the universe has at most 512 slots. *)
+Theorem c01_reachable : forall ops,
+  let w := run ops in
+  NoDup (u_inputs (w_u w)) /\ NoDup (u_outs (w_u w)) /\
+  StronglySorted N.lt (u_clients (w_u w)) /\ StronglySorted N.lt (u_sinks (w_u w)) /\
+  (forall i, (length (s_data (p_src (w_ports w i))) <= 512)%nat) /\
+  (forall c, (length (s_data (w_csrc w c)) <= 512)%nat) /\
+  (length (u_buf (w_u w)) <= 512)%nat.
+Proof.
+  intros ops. destruct (run_inv ops) as ((H1 & H2 & H3 & H4) & (H5 & H6) & H7).
+  cbv zeta. repeat split; assumption.
+Qed.
+Print Assumptions c01_reachable.
+
+(* Priorities: if every priority supplied by a client and every inherited priority supplied by a
+   plugin is at most 200 (BasicInputPort::SetPriority rejects larger static ones itself), then after any
+   history the active priority and the priority of every WriteDMX/SendDMX call are at most 200. *)
+Theorem c01_prio_range : forall ops o,
+  Forall (fun o => match o with
+                   | ClientData _ _ p _ _ => p <= 200 | SetInherited _ p => p <= 200 | _ => True
+                   end) ops ->
+  match o with ClientData _ _ p _ _ => p <= 200 | SetInherited _ p => p <= 200 | _ => True end ->
+  u_prio (w_u (run ops)) <= 200 /\
+  Forall (fun e => match e with WriteDMX _ _ p => p | SendDMX _ _ p => p end <= 200)
+         (snd (step (run ops) o)).
+Proof. exact prio_range_lemma. Qed.
+Print Assumptions c01_prio_range.
+
+(* ---- the hypotheses are satisfiable (non-vacuity), on concrete histories ---- *)
+Definition ex_setup : list op :=
+  [AddInput 0; AddInput 1; AddOutput 5; AddSink 2; SetMode false;
+   PortData 0 [1; 200] 10 10; PortData 1 [9] 20 20].
+
+(* three-member HTP group (two ports at the default priority 100, one client at 100), frames of
+   lengths 2, 1 and 3 *)
+Example ex_htp3 :
+  match apply_update (run ex_setup) (ClientData 3 [0; 0; 7] 100 30 30) with
+  | Some (chg, now, w1) =>
+    u_ltp (w_u (run ex_setup)) = false /\ length (group now (sources w1)) = 3%nat /\
+    member chg (group now (sources w1)) = true /\
+    u_buf (w_u (fst (step (run ex_setup) (ClientData 3 [0; 0; 7] 100 30 30)))) = [9; 200; 7] /\
+    snd (step (run ex_setup) (ClientData 3 [0; 0; 7] 100 30 30)) =
+      [WriteDMX 5 [9; 200; 7] 100; SendDMX 2 [9; 200; 7] 100]
+  | None => False
+  end.
+Proof. vm_compute. repeat split; reflexivity. Qed.
+
+(* LTP, two members with EQUAL time stamps: the updating one is not older, it wins *)
+Example ex_ltp_equal :
+  let w := run [AddInput 0; AddInput 1; AddOutput 5; PortData 0 [1; 2] 10 10] in
+  let o := PortData 1 [3] 10 10 in
+  match apply_update w o with
+  | Some (chg, now, w1) =>
+    u_ltp (w_u w) = true /\ length (group now (sources w1)) = 2%nat /\
+    In (chg, {| s_data := [3]; s_ts := 10; s_prio := 100 |}) (group now (sources w1)) /\
+    newer_exists 10 (group now (sources w1)) = false /\
+    u_buf (w_u (fst (step w o))) = [3] /\ snd (step w o) = [WriteDMX 5 [3] 100]
+  | None => False
+  end.
+Proof. vm_compute. repeat split; try reflexivity. right. left. reflexivity. Qed.
+
+(* LTP, the updating member carries an older stamp than another member: nothing changes *)
+Example ex_ltp_older :
+  let w := run [AddInput 0; AddInput 1; AddOutput 5; PortData 0 [1; 2] 10 10] in
+  let o := PortData 1 [3] 9 10 in
+  match apply_update w o with
+  | Some (chg, now, w1) =>
+    length (group now (sources w1)) = 2%nat /\ member chg (group now (sources w1)) = true /\
+    newer_exists 9 (group now (sources w1)) = true /\
+    u_buf (w_u (fst (step w o))) = [1; 2] /\ snd (step w o) = []
+  | None => False
+  end.
+Proof. vm_compute. repeat split; reflexivity. Qed.
+
+(* the 2.5 s boundary: live at ts + 2 499 999, not live at ts + 2 500 000; a higher-priority source
+   that has just timed out no longer shields a lower-priority one *)
+Example ex_boundary :
+  let s := {| s_data := [1]; s_ts := 1000; s_prio := 100 |} in
+  liveb 2500999 s = true /\ liveb 2501000 s = false /\
+  let w := run [AddInput 0; AddOutput 5; ClientData 4 [8; 8] 200 1000 1000] in
+  u_buf (w_u w) = [8; 8] /\
+  snd (step w (PortData 0 [1] 2500999 2500999)) = [] /\
+  snd (step w (PortData 0 [1] 2501000 2501000)) = [WriteDMX 5 [1] 100].
+Proof. vm_compute. repeat split; reflexivity. Qed.
+
+(* sole member / outside the group *)
+Example ex_single_outside :
+  let w := run [AddInput 0; AddInput 1; AddSink 3; SetPortPrio 1 101; PortData 1 [5; 6] 10 10] in
+  group 20 (sources w) = [(Port 1, {| s_data := [5; 6]; s_ts := 10; s_prio := 101 |})] /\
+  snd (step w (PortChanged 1 20)) = [SendDMX 3 [5; 6] 101] /\
+  match apply_update w (PortData 0 [255; 255; 255] 20 20) with
+  | Some (chg, now, w1) => member chg (group now (sources w1)) = false /\
+                           snd (step w (PortData 0 [255; 255; 255] 20 20)) = []
+  | None => False
+  end.
+Proof. vm_compute. repeat split; reflexivity. Qed.
+
+(* the premise of c01_prio_range holds for a history that does supply priorities *)
+Example ex_prio_premise :
+  Forall (fun o => match o with
+                   | ClientData _ _ p _ _ => p <= 200 | SetInherited _ p => p <= 200 | _ => True
+                   end) (ex_setup ++ [SetInherited 1 200; ClientData 3 [0; 0; 7] 100 30 30]).
+Proof. cbn [ex_setup app]. repeat constructor; intro H; discriminate H. Qed.
